@@ -19,16 +19,23 @@ def run(ctx):
                                              "EditKinds": '{"OmitApprox", "PerturbApprox", "AttachHeights", "AddConsistentObs", "SetAlgorithm", "Translate"}',
                                              "KeepNet": 211 if q else 47, "KeepEdit": 2 if q else 1, "Seed": ctx.seed})
     ed = [s for s in ed if s["net"]["noise"] == 0]
-    ctx.note("SurveySession: %d consistent base networks, %d one-edit sessions" % (len(base), len(ed)))
+    # the result must not depend on the approximate coordinates supplied: also for noisy observations, where every
+    # linearization iteration moves the approximate coordinates by the corrections of the previous one
+    r2, pn = sessions.generate(ctx, "c06c", {"Templates": sessions.ALL_TEMPLATES, "NoiseSet": "{1, 2, 3}", "MaxEdits": 1, "EditKinds": '{"PerturbApprox"}',
+                                             "KeepNet": 211 if q else 47, "KeepEdit": 1, "Seed": ctx.seed})
+    ctx.note("SurveySession: %d consistent base networks, %d one-edit sessions, %d perturbed noisy networks" % (len(base), len(ed), len(pn)))
     st0, _, _ = sessions.run_sessions(ctx, base, truth=True, laws=False)
     st1, _, _ = sessions.run_sessions(ctx, ed, truth=True, laws=True)
+    st2, _, _ = sessions.run_sessions(ctx, pn, truth=False, laws=True, sigprefix="noisy_")
+    for k in ("runs", "truth_checks", "adjusted"):
+        st1[k] += st2[k]
     if ed:
         ctx.sample({"net": {k: ed[0]["net"][k] for k in ("t", "axes", "lefthanded", "orient")}, "edit": ed[0]["edits"][0]["e"],
                     "obs": ed[0]["net"]["obs"][:4]})
     ctx.assume("observation values are computed from the true coordinates by textbook formulas in tools/session.py (trusted, 1e-10)")
     ctx.assume("tolerance 2e-6 m / 2e-7 gon on printed results")
     n = st0["truth_checks"] + st1["truth_checks"]
-    return {"evaluations": st0["runs"] + st1["runs"], "distinct_nontrivial": len(base) + len(ed),
+    return {"evaluations": st0["runs"] + st1["runs"], "distinct_nontrivial": len(base) + len(ed) + len(pn),
             "rule": "final states of SurveySession.tla with noise = 0 (thinned by KeepNet/KeepEdit/Seed); every network is distinct in template, "
                     "optional observations, axes, angle sense or circle orientation; non-trivial = all (each has >= 2 unknown points)",
-            "tlc_states": r0.distinct + r1.distinct, "truth_checks": n, "adjusted": st0["adjusted"] + st1["adjusted"], "exhaustive": False}
+            "tlc_states": r0.distinct + r1.distinct + r2.distinct, "law_checks": st1["law_checks"] + st2["law_checks"], "truth_checks": n, "adjusted": st0["adjusted"] + st1["adjusted"], "exhaustive": False}
